@@ -126,26 +126,37 @@ fn module_level_statements(stmts: &[Stmt]) -> Vec<&Stmt> {
     fn collect<'a>(stmts: &'a [Stmt], out: &mut Vec<&'a Stmt>) {
         for stmt in stmts {
             match stmt {
+                // The except branches come first: they hold the fallback
+                // (`except ImportError: from .slow import x`), and among several imports of a
+                // name the last one listed wins - that has to be the one in the try body.
                 Stmt::Try(t) => {
-                    collect(&t.body, out);
                     for handler in &t.handlers {
                         let rustpython_parser::ast::ExceptHandler::ExceptHandler(h) = handler;
                         collect(&h.body, out);
                     }
+                    collect(&t.body, out);
                     collect(&t.orelse, out);
                     collect(&t.finalbody, out);
                 }
                 Stmt::TryStar(t) => {
-                    collect(&t.body, out);
                     for handler in &t.handlers {
                         let rustpython_parser::ast::ExceptHandler::ExceptHandler(h) = handler;
                         collect(&h.body, out);
                     }
+                    collect(&t.body, out);
                     collect(&t.orelse, out);
                     collect(&t.finalbody, out);
                 }
                 Stmt::If(i) => {
-                    collect(&i.body, out);
+                    // `if TYPE_CHECKING:` never runs: what it imports is not bound at runtime
+                    let type_checking_only = match i.test.as_ref() {
+                        Expr::Name(name) => name.id.as_str() == "TYPE_CHECKING",
+                        Expr::Attribute(attr) => attr.attr.as_str() == "TYPE_CHECKING",
+                        _ => false,
+                    };
+                    if !type_checking_only {
+                        collect(&i.body, out);
+                    }
                     collect(&i.orelse, out);
                 }
                 Stmt::With(w) => collect(&w.body, out),
